@@ -400,8 +400,8 @@ def do_batch(args, tier, prof, pools, t_start, jobs):
     if ab:
         from collections import Counter as _C
 
-        for reason, n in _C(d["aborted"][:160] for d in ab).most_common(4):
-            print("  aborted x%d (first run %d): %s" % (n, min(d["run"] for d in ab if d["aborted"][:160] == reason), reason))
+        for reason, n in _C(d["aborted"][:700] for d in ab).most_common(4):
+            print("  aborted x%d (first run %d): %s" % (n, min(d["run"] for d in ab if d["aborted"][:700] == reason), reason))
     js = (post or {}).get("coverage", {}).get("java_stage")
     if js is not None and js.get("status") != "ran":
         print("NOTE: %s Java cross-decoding stage did not run: %s" % (prop, js.get("status")))
